@@ -65,7 +65,7 @@ PROPS['C08'] = dict(
     runs=[dict(cmd='tuple', proto='tuple'), dict(cmd='sql', proto='sql', args=['literals'], corpus='C08'),
           dict(cmd='db', proto='db', args=['c08'], corpus='C08db')],
     sig_filter=r'(tuple|sql):.*|db:(contents-differ|schema-differs|valid-statement-refused|invalid-statement-accepted|select-failed|panic|hang|recovery-failed).*',
-    claim='Proof: C08_tuple_roundtrip (for every schema with distinct column names and every assignment of int64 / byte-string / '
+    claim='Proof: C08_accepted_value_is_read_back / C08_accepted_statement_is_read_back / C08_accepted_values_survive_a_crash - end to end over parsed statements: on a database satisfying the invariant an INSERT the plain model accepts succeeds and every later Fetch (the source of every SELECT) returns, for each new row, exactly the given values at the named columns and NULL elsewhere - now, after a flush, after the cache is dropped and every page re-read from the data file, after start-up recovery of the flushed database and after a crash with the statements only in the log (ReadsDurably; C02 rounds); C08_row_refused_iff / C08_refused_value_is_not_stored / C08_refused_statement_is_not_stored - a row is refused exactly for a wrong count, a value its column type does not admit (C08_refuse_kind) or an encoding over the limit, and then nothing is stored or logged and the old rows read back durably. Codec level: C08_tuple_roundtrip (for every schema with distinct column names and every assignment of int64 / byte-string / '
           'boolean / NULL values, what Tuple.Encode accepts Tuple.Decode returns bit-for-bit), C08_accept_iff (a row is accepted '
           'exactly when each column is NULL or of the column type, INT within 32 bits) and C08_refuse_kind (which error) are Lean '
           'theorems over the byte-level row codec model; C12_roundtrip carries the bytes through a page. Tie: Encode/Decode field '
@@ -114,12 +114,10 @@ PROPS['C10'] = dict(
     facts=['sql.tokens', 'const.sql.*', 'panics.sql.*'],
     runs=[dict(cmd='sql', proto='sql', timeout=1200)],
     search_seeds=1,
-    claim='Proof (partial by production): C10_cond_roundtrip / C10_where_roundtrip - for EVERY parenthesis-free combination of '
+    claim='Proof: C10_statement_roundtrip - token level, ALL productions: for every well-formed statement (WFStmt, a decidable predicate; C10_wellformed_iff_parseable shows it describes exactly the statements some token list parses to) and every choice of the optional spellings (keyword texts in any case, AS before an alias or not, INNER written or not, ASC written or not, LIMIT before OFFSET or after, commas in GROUP BY, SHOW DATABASE / databases, empty column-list parentheses, any number of closing semicolons where the parser allows them, an EOF token or none), Parser.Parse on the rendered tokens returns exactly that statement - same kind, names, literals, operators, clause contents and order, join kinds and sort directions mapped to themselves; C10_no_list_cut: every comma separated list (select list, VALUES rows and the values of each, SET assignments, GROUP BY, ORDER BY, column definitions, INSERT columns) comes back with the same elements; C10_condition_roundtrip_any_shape, C10_join_chain_roundtrip, C10_sep_list_whole / C10_guarded_list_whole are the per-production statements; C10_std_literals_good: INT tokens of non-negative int64 decimals, STR, TRUE/FALSE are read back by Token.Val. Earlier theorems: C10_cond_roundtrip / C10_where_roundtrip - for EVERY parenthesis-free combination of '
           'comparison predicates with AND/OR (any number, any operands whose literals Token.Val reads back) the parser model returns '
           'the tree in which AND binds tighter than OR and consumes exactly those tokens; C10_and_tighter; C10_group_by_list - a comma '
-          'separated GROUP BY list of n columns yields n columns (no silent cut). C10_no_silent_tail / C10_tail_refused - for EVERY token list, Parser.Parse returns a statement only if the statement production consumed the whole input up to closing semicolons and the end, and a statement followed by anything else is a syntax error: no clause behind a token the grammar does not know is ever dropped (the defect repaired in c4dbcb2; the judge checks the same on the implementation: sql:statement-tail-dropped). The remaining productions (select list, joins, '
-          'VALUES rows, SET lists, ORDER BY, LIMIT/OFFSET, DDL) and the text->token layer are covered by correspondence and judge only '
-          '(C10_statement_roundtrip_partial): statement trees generated over the whole grammar, rendered with random keyword case, '
+          'separated GROUP BY list of n columns yields n columns (no silent cut). C10_no_silent_tail / C10_tail_refused - for EVERY token list, Parser.Parse returns a statement only if the statement production consumed the whole input up to closing semicolons and the end, and a statement followed by anything else is a syntax error: no clause behind a token the grammar does not know is ever dropped (the defect repaired in c4dbcb2; the judge checks the same on the implementation: sql:statement-tail-dropped). The text->token layer (scanner: keyword case, whitespace, comments) is covered by correspondence and judge only until its theorems land (C10Text): statement trees generated over the whole grammar, rendered with random keyword case, '
           'whitespace, comments, line breaks and optional keywords, two renderings each, exhaustive boolean shapes up to 4 predicates; '
           'the real parser\'s AST must equal the generated tree and equal the model\'s AST.',
     note='Trusted: Lean kernel, hand-written scanner/parser model, generator of expected trees in the harness (the tree side of the '
@@ -184,7 +182,7 @@ EXEC_ASSUME = ['float division in math.Round is exact for |sum| < 2^53', 'tables
 PROPS['C05'] = dict(
     lean=['Mkdb.Props.C05'], facts=EXEC_FACTS, sig_filter=r'exec:(select:.*|header|panic|hang|no-output)',
     runs=[dict(cmd='exec', proto='exec', args=['select'])],
-    claim='Proof: C05_select_correct (for every table and every single-table SELECT without aggregates the model of EvaluateSelect '
+    claim='Proof: C05_result_is_the_reference_meaning / C05_meaningful_query_is_answered / C05_answered_iff_meaningful - the model of EvaluateSelect is proved equivalent to the REFERENCE MEANING the judge evaluates on the implementation (Mkdb/Spec/Query.lean: Spec.meaning, written as list comprehensions, and Spec.satisfies, called with the same header the judge passes): for every table content and every single-table SELECT without aggregates whose WHERE is not a bare non-boolean literal, the executor answers (rows, hdr) if and only if the query has a reference meaning, its ORDER BY keys resolve and are comparable, and then rows = drop OFFSET / take LIMIT of the stably sorted meaning and Spec.satisfies holds - so a well-typed query is never refused and an answer is never anything but the meaning; the excluded points are witnessed (C05_bare_literal_where_is_answered: WHERE 5 is answered with no rows, an ill-typed query outside the quantifier of the property; C05_incomparable_keys_panic: a column mixing types, which typed storage excludes). Stage by stage: C05_select_correct (for every table and every single-table SELECT without aggregates the model of EvaluateSelect '
           'returns exactly filter(WHERE) -> project(select list) -> sort(ORDER BY keys resolved against the output header) -> '
           'drop OFFSET -> take LIMIT), C05_sort (sorted permutation), C05_no_order_by (insertion order), C05_cmp_strict_weak (the '
           'multi-key ASC/DESC comparator is a strict weak order on typed columns incl. NULL and strings), C05_limit_offset, '
@@ -202,7 +200,7 @@ PROPS['C05'] = dict(
 PROPS['C06'] = dict(
     lean=['Mkdb.Props.C06'], facts=EXEC_FACTS, sig_filter=r'exec:(join:.*|panic|hang|no-output)',
     runs=[dict(cmd='exec', proto='exec', args=['join'])],
-    claim='Proof: C06_join - for every left-deep chain of INNER/LEFT/RIGHT joins over any table contents, whenever the relational '
+    claim='Proof: C06_result_is_the_reference_meaning / C06_meaningful_query_is_answered / C06_join_defined_iff - for every SELECT over any left-deep chain of INNER / LEFT / RIGHT joins (no aggregates) the model of EvaluateSelect answers if and only if the reference meaning (Spec.fromRows: the relational definition; Spec.meaning; Spec.satisfies - what the judge evaluates on the implementation) is defined with resolvable comparable sort keys, and the answer is the meaning as a multiset, sorted / cut as the clauses say; C06_sorted_keys_of_permutations_agree is why the judge may compare key sequences although the executor sorts the rows in another order. C06_join - for every left-deep chain of INNER/LEFT/RIGHT joins over any table contents, whenever the relational '
           'definition (pairs satisfying ON, plus each unmatched left/right row once padded with NULLs) is defined, the nested-loop '
           'join of the model returns the same header and a permutation of exactly those rows; C06_inner/left/right give the exact '
           'equations in loop order; C06_ambiguous, C06_qualified, C06_alias cover column resolution (ambiguous unqualified names are '
@@ -218,7 +216,7 @@ PROPS['C06'] = dict(
 PROPS['C07'] = dict(
     lean=['Mkdb.Props.C07'], facts=EXEC_FACTS, sig_filter=r'exec:(aggregate:.*|panic|hang|no-output)',
     runs=[dict(cmd='exec', proto='exec', args=['agg'])],
-    claim='Proof: C07_one_group_per_key, C07_group_membership, C07_partition (exactly one group per distinct tuple of grouping values; '
+    claim='Proof: C07_result_is_the_reference_meaning / C07_join_result_is_the_reference_meaning / C07_meaningful_query_is_answered / C07_join_meaningful_query_is_answered - for SELECTs with COUNT(*) / COUNT(col) / GROUP BY (with or without aggregates; AVG under the data condition of the known finding: equal values per group) over one table or any chain of joins, what the model of EvaluateSelect answers is the reference meaning the judge evaluates (Spec.meaning: groups = distinct tuples of grouping values of the SOURCE rows, counts per group, one row of zeros for empty input without GROUP BY), and a query with a meaning is answered; C07_aggregate_rows_is_the_grouping_of_the_meaning is the core; C07_groups_do_not_depend_on_row_order. The specification was TIGHTENED on the way (a non-aggregate element of a grouping query has a meaning only if it evaluates on every row of its group and is constant on it - before, the reference took the value of the first row, which made the judge able to raise a false alarm on SELECT v < x, count(*) and on an ungrouped expression over a join; C07_expression_next_to_aggregate_has_no_meaning, C07_ungrouped_expression_has_no_meaning). C07_one_group_per_key, C07_group_membership, C07_partition (exactly one group per distinct tuple of grouping values; '
           'a group is exactly the rows with its key), C07_count_star, C07_count_col, C07_order_independent (groups and counts do not '
           'depend on row order), C07_one_row_per_key (one result row per distinct tuple). AVG is a KNOWN FINDING: the code keeps a '
           'cumulative average rounded after every row; the full statement "AVG = round(sum/count), order independent" is false of '
@@ -239,7 +237,7 @@ PROPS['C18'] = dict(
           'every SELECT of a shape the parser produces, the model of EvaluateSelect returns rows or an error value; the only panic '
           'left is the ORDER BY comparator meeting two non-NULL values of different types in one column, excluded on typed columns by '
           'C18_sort_safe; C09_total covers the front end. C18_dml_ddl_never_crash: for every database state related to a plain database (catalog invariant, any number of tables of any size and depth) and every CREATE TABLE / INSERT / UPDATE / DELETE the parser can produce that does not address the two catalog tables by name, the engine model returns ok or an error value - no panic, no unmodelled path, no fuel exhaustion (how the model would show a hang) - and a refused statement leaves the log alone (C18_dml_ddl_total); side conditions: literals that fit their Go types, 64-level fuel and offsets below 2^63 for INSERT and CREATE. '
-          'Not covered by a theorem: the session states (no USE / failed USE: C17 theorems and sess runs), statements addressed at sys_pages / sys_schema themselves (correspondence only). Limit of the claim: the theorems bound the recursion of the model by fuel linear in the input, the Go stack is finite - a statement of millions of nested OR / AND terms (25 MB of text) overflows it in the parser, two million terms in the evaluator; no check generates inputs of that size, the claim is for inputs whose nesting the Go stack holds (about a million terms). Tie: panic-site inventory of '
+          'C18_session_never_crashes / C18_session_statement_never_crashes: the session model (engine/session.go: no database selected, a refused USE or CREATE DATABASE, a selected database) run on ANY list of statements from the empty session, going on after every error, never returns its crash outcome, because every statement - accepted, refused before a change, refused at a later row (the known finding of C14) - keeps the per-database invariant DbInv (C18_every_statement_keeps_the_database_invariant), so the next statement meets the hypotheses of C18_dml_ddl_never_crash again; C18_plain_histories_never_crash shows the side conditions are met by whole families of histories. Not covered by a theorem: statements addressed at sys_pages / sys_schema themselves (correspondence only); SELECT at session level is a stub in the session model (its evaluation: C18_no_panic_partial). Limit of the claim: the theorems bound the recursion of the model by fuel linear in the input, the Go stack is finite - a statement of millions of nested OR / AND terms (25 MB of text) overflows it in the parser, two million terms in the evaluator; no check generates inputs of that size, the claim is for inputs whose nesting the Go stack holds (about a million terms). Tie: panic-site inventory of '
           'engine/*.go re-extracted every run; type-confused, NULL-bearing and ill-formed queries run under recover() and a watchdog.',
     note=EXEC_NOTE, assumptions=EXEC_ASSUME,
     rule='per database 46 fixed ill-typed / ill-formed queries (AVG over varchar/bool/NULL, ORDER BY over NULLs, unknown / ambiguous / '
@@ -321,7 +319,7 @@ PROPS['C16'] = dict(lean=['Mkdb.Props.C16', 'Mkdb.Props.C15'], facts=STORE_FACTS
     trusted_base=['models Mkdb/Model/PageCache.lean, LRU.lean; hook VerifOpenRelation(cacheCap)'], shrink=False)
 PROPS['C17'] = dict(lean=['Mkdb.Props.C17'], facts=['skeleton.engine.Session.*', 'panics.engine.Session.*', 'skeleton.storage.OpenRelation', 'skeleton.storage.CreateDB', 'skeleton.storage.newFileStore', 'skeleton.storage.fileStore.close'],
     runs=[dict(cmd='sess', proto='sess')], sig_filter=r'sess:.*',
-    claim='Proof (partial by nature for the schedule quantifier): C17_frame - every DDL/DML/SELECT/SHOW statement changes at most the selected database, for every session state and statement; C17_no_database_selected; C17_create_existing, C17_use_missing - errors that leave the session exactly as it was (the previously selected database stays selected and open); C17_create_new; C17_use_current - re-selecting the current database changes nothing; C17_use_other - only the previously selected database is touched (closed); C17_names_are_the_created_ones - after any history the databases are exactly those whose CREATE DATABASE returned ok; C17_show - SHOW DATABASES returns a permutation of them. Not covered by a theorem: that closing (flush) and restart (recovery) preserve contents - that is C02/C04 and the correspondence here - and the real flush timer of an abandoned relation service. C17_invalid_name_refused: a name that is not one plain directory name (., .., a path separator or NUL inside, more than 255 bytes) is refused by CREATE DATABASE and USE with an error that changes nothing (repair 6f7783e). Tie: random sessions over 2-4 databases through engine.Session.ExecQuery with real pauses longer than the flush interval and restarts (close, InitStorage, new session); outputs and per-database SELECT * are compared with the model, and the judge checks isolation against a per-database in-memory spec.',
+    claim='Proof (partial by nature for the schedule quantifier): C17_frame - every DDL/DML/SELECT/SHOW statement changes at most the selected database, for every session state and statement; C17_no_database_selected; C17_create_existing, C17_use_missing - errors that leave the session exactly as it was (the previously selected database stays selected and open); C17_create_new; C17_use_current - re-selecting the current database changes nothing; C17_use_other - only the previously selected database is touched (closed); C17_names_are_the_created_ones - after any history the databases are exactly those whose CREATE DATABASE returned ok; C17_show - SHOW DATABASES returns a permutation of them. C17_restart_preserves_every_database / C17_restart_after_any_history: for a session satisfying the invariant (from the empty session after ANY history meeting the per-statement side conditions), restart - close the selected database, start-up recovery of every database, re-open - succeeds, no recovery fails, every database abstracts to the same plain database as before and the session goes on accepting statements; C17_use_changes_no_database / C17_any_number_of_uses: USE any number of times, back and forth, re-selecting, naming missing databases, changes the contents of no database (the database left is flushed and re-opened from its file: the invariant DbInv carries that every clean cached page equals its disk copy); C17_statements_change_only_the_selected_database, C17_create_database_adds_an_empty_database, C17_accepted_statement, C17_contents_are_what_a_reader_sees (what Fetch returns is the plain database). Not covered by a theorem: the real flush timer of an abandoned relation service (exercised by the sess runs), a crash - rather than a close - before the restart (C02 per database). C17_invalid_name_refused: a name that is not one plain directory name (., .., a path separator or NUL inside, more than 255 bytes) is refused by CREATE DATABASE and USE with an error that changes nothing (repair 6f7783e). Tie: random sessions over 2-4 databases through engine.Session.ExecQuery with real pauses longer than the flush interval and restarts (close, InitStorage, new session); outputs and per-database SELECT * are compared with the model, and the judge checks isolation against a per-database in-memory spec.',
     note='Trusted: Lean kernel (axioms propext, Classical.choice, Quot.sound only), the hand-written models, the harness and hooks, the OS file system behaving as a byte array per file with fsync making earlier writes durable. Theorems are about the models; the code is covered through the correspondence and the judge, which are bounded.',
     rule='sessions of 20-80 statements; CREATE DATABASE / USE (existing, missing, current, mixed case) / SHOW DATABASES interleaved with DDL/DML; pauses of 120-250 ms; 0-3 restarts. Non-trivial: a session that switches databases at least twice with data in both; distinct by session text.'
          ' [round 2] plus 14 scripted sessions: every statement kind after a refused USE / refused CREATE DATABASE, with and without a database selected before. ',
